@@ -203,7 +203,7 @@ static void enumerateAll(bool thorough, const std::function<void(const Spec &)> 
 
 int main(int argc, char **argv) {
   vf::Opts o = vf::parseOpts(argc, argv);
-  bool th = o.thorough();
+  bool th = o.thorough() && o.pass != "san";  // the secondary sanitizer pass of the thorough tier uses the quick alphabet
   vf::Check<Spec> c;
   c.property = "C10";
   c.level = "fault_enumeration";
